@@ -1,9 +1,9 @@
 package main
 
 import (
-	"io"
 	"crypto/rand"
 	"fmt"
+	"io"
 	"sort"
 	"time"
 
@@ -213,9 +213,9 @@ func revCandidates(p *gabi.ProofD) int {
 }
 
 // outcome encodings shared with GoSem.of_outcome
-func okV(v V) V   { return L{0, v} }
-func errV() V     { return L{1} }
-func panicV() V   { return L{2} }
+func okV(v V) V { return L{0, v} }
+func errV() V   { return L{1} }
+func panicV() V { return L{2} }
 
 func catchBool(f func() bool) (v V, panicked bool, res bool) {
 	defer func() {
